@@ -126,3 +126,11 @@ Proof. exact w_move_cursor_to_prev_tab_eq. Qed.
 Check C18_source_terminal_prev_tab : forall t n, ZW t -> w_move_cursor_to_prev_tab Om (zabs t) (wabs t) (Z.of_nat n) = wres (move_cursor_to_prev_tab t n).
 Print Assumptions C18_source_terminal_prev_tab.
 
+From Avt Require Import Proofs.StepC05.
+(** a clause of C05's statement that this property's text contains and its check evaluates on the implementation *)
+(** HT / CHT / CBT move to the n-th next / previous stop (evaluated as `C18.tab_moves`) *)
+Theorem C18_tab_moves : forall p p' t f t', TInv t -> execute t f = Ok t' -> match f with Ht | Cht _ | Cbt _ => holds_C05 (mkVt p t) f (mkVt p' t') = true | _ => True end.
+Proof. intros p p' t f t' HT E. destruct f; try exact I; exact (C05_holds p p' t _ t' HT E). Qed.
+Check C18_tab_moves : forall p p' t f t', TInv t -> execute t f = Ok t' -> match f with Ht | Cht _ | Cbt _ => holds_C05 (mkVt p t) f (mkVt p' t') = true | _ => True end.
+Print Assumptions C18_tab_moves.
+
